@@ -281,16 +281,17 @@ type countResult struct {
 }
 
 type fastReader struct {
-	word  uint32
-	reads int
-	cont  uint32 // served after the first word (a word known to be accepted)
+	word   uint32
+	reads  int
+	cont   uint32 // served right after the word
+	target int    // index of the read that gets the word (0: the first read); other reads get a varying sequence
 }
 
 func (f *fastReader) Read(p []byte) (int, error) {
 	if len(p) != 4 {
 		// unusual read size: serve big-endian bytes of the word, zero beyond
 		var b [4]byte
-		if f.reads == 0 {
+		if f.reads == f.target {
 			binary.BigEndian.PutUint32(b[:], f.word)
 		} else {
 			binary.BigEndian.PutUint32(b[:], f.cont)
@@ -302,16 +303,17 @@ func (f *fastReader) Read(p []byte) (int, error) {
 		}
 		return len(p), nil
 	}
-	if f.reads == 0 {
+	if f.reads == f.target {
 		binary.BigEndian.PutUint32(p, f.word)
 	} else {
-		if f.reads > 256 {
+		if f.reads > 256+f.target {
 			panic(sentRunaway)
 		}
-		// continuation after a rejected first word: the given word, then a varying sequence
-		// (no fixed word may be assumed to be accepted)
+		// continuation after a rejected word: the given word, then a varying sequence
+		// (no fixed word may be assumed to be accepted); reads before the target read get the
+		// varying sequence too
 		w := f.cont
-		if f.reads > 1 {
+		if f.reads != f.target+1 {
 			x := uint64(f.word)*0x9e3779b97f4a7c15 + uint64(f.reads)
 			w = uint32(splitmix64(&x) >> 32)
 		}
@@ -756,11 +758,43 @@ func runC01API(c *Ctx, s *C01Spec) {
 	for k := 0; k < 6; k++ {
 		words = append(words, biasedWord(r, n))
 	}
-	// words consumed by a generation whose first raw word is accepted (the first draw may be
-	// followed by others: a capitalised-position pick is followed by the word picks)
+	// which read belongs to the pick under test: the first announced draw whose bound is the number
+	// of alternatives (an unannounced pick is taken to be the first read). The code is free to make
+	// its draws in any order, e.g. the word picks before the pick of the capitalised position.
+	ti := -2
+	for k := uint64(1); k <= 3; k++ {
+		pr := genOp(NewTape(TapeSpec{Mode: "raw", Default: "random", Seed: 0xb00 + k}), g)
+		if pr.Kind != "ok" {
+			continue
+		}
+		at := 0
+		for _, d := range pr.Tape.Draws {
+			if d.N == n {
+				at = d.At
+				break
+			}
+		}
+		if ti == -2 {
+			ti = at
+		} else if ti != at {
+			ti = -3
+		}
+	}
+	if ti < 0 {
+		c.Count("api_pick_not_located", 1)
+		return
+	}
+	pre := make([]uint32, ti)
+	prr := Sub(s.Seed, "apiprefix")
+	for i := range pre {
+		pre[i] = prr.U32()
+	}
+	withWord := func(w uint32) []uint32 { return append(append([]uint32{}, pre...), w) }
+	// words consumed by a generation whose raw word for the pick is accepted (the pick may be
+	// preceded or followed by other draws)
 	baseline := 1 << 30
 	for k := uint32(1); k <= 24; k++ {
-		pr := genOp(NewTape(TapeSpec{Mode: "raw", Words: []uint32{k * 0x01010101}, Default: "random", Seed: 0xa91}), g)
+		pr := genOp(NewTape(TapeSpec{Mode: "raw", Words: withWord(k * 0x01010101), Default: "random", Seed: 0xa91}), g)
 		if pr.Kind == "ok" && len(pr.Tape.Served)/4 < baseline {
 			baseline = len(pr.Tape.Served) / 4
 		}
@@ -769,7 +803,7 @@ func runC01API(c *Ctx, s *C01Spec) {
 		return
 	}
 	for _, w := range words {
-		res := genOp(NewTape(TapeSpec{Mode: "raw", Words: []uint32{w}, Default: "random", Seed: 0xa91}), g)
+		res := genOp(NewTape(TapeSpec{Mode: "raw", Words: withWord(w), Default: "random", Seed: 0xa91}), g)
 		c.Eval(1)
 		c.T(res.tkey())
 		c.Distinct(desc, w)
@@ -820,7 +854,7 @@ func countChildAPIMain(args []string) int {
 	lo, _ := strconv.ParseUint(args[1], 10, 64)
 	hi, _ := strconv.ParseUint(args[2], 10, 64)
 	installOrderHooks()
-	gi, _, _, ok := apiGenerator(&s)
+	gi, alts, _, ok := apiGenerator(&s)
 	if !ok {
 		fmt.Println("cannot build generator")
 		return 2
@@ -829,6 +863,39 @@ func countChildAPIMain(args []string) int {
 	fr := &fastReader{cont: 0}
 	rand.Reader = fr
 	res := apiCountResult{Counts: map[string]uint64{}}
+	// which read belongs to the pick under test? The first announced draw whose bound is the number
+	// of alternatives (hook H1); a pick that is not announced at all is taken to be the first read.
+	// The code is free to make its draws in any order (words first, then the position).
+	target, located := -2, 0
+	for k := uint32(1); k <= 3; k++ {
+		at := -1
+		fr.word, fr.reads, fr.target = k*0x01010101, 0, -1
+		spg.VerifHooks.NoteDraw = func(b uint32) {
+			if at < 0 && int(b) == len(alts) {
+				at = fr.reads
+			}
+		}
+		func() {
+			defer func() { recover() }()
+			if p, err := g.Generate(); err == nil && p != nil {
+				located++
+				if at < 0 {
+					at = 0
+				}
+				if target == -2 {
+					target = at
+				} else if target != at {
+					target = -3
+				}
+			}
+		}()
+	}
+	spg.VerifHooks.NoteDraw = nil
+	if located == 0 || target < 0 {
+		fmt.Println("cannot locate the read of the pick under test (its position among the reads is not stable)")
+		return 3
+	}
+	fr.target = target
 	// reads made by a generation whose first raw word is accepted
 	baseline := 1 << 30
 	for k := uint32(1); k <= 24; k++ {
@@ -901,6 +968,12 @@ func exactCountAPI(c *Ctx, s *C01Spec, why string) (trouble string) {
 	// cost probe: 2^16 words in one child; give up (inconclusive, not a verdict) if all 2^32 would take too long
 	tp := nowS()
 	if pb, err := exec.Command(exe, "count-child-api", specFile, "0", "65536").Output(); err != nil {
+		if ee, ok := err.(*exec.ExitError); ok && ee.ExitCode() == 3 {
+			// not a verdict either way
+			c.Count("api_exact_count_skipped_pick_not_located", 1)
+			fmt.Printf("note: %s: %s; API-level count skipped\n", desc, strings.TrimSpace(tail(string(pb), 200)))
+			return ""
+		}
 		return fmt.Sprintf("api count probe: %v: %s", err, tail(string(pb), 300))
 	}
 	if projected := (nowS() - tp) * 65536 / float64(W); projected > 900 {
